@@ -3,8 +3,7 @@
 cd /verif
 for p in "$@"; do
   s=$(date +%s)
-  out=$(timeout 3000 ./bin/gosmt -prop $p -tier thorough -no-evidence -workers 12 2>&1 | grep -v "^\[" | tail -6 | cut -c1-400)
-  rc=$?
+  out=$(timeout ${THOROUGH_TIMEOUT:-2400} ./bin/gosmt -prop $p -tier thorough -no-evidence -workers 14 2>&1 | grep -v "^\[" | tail -4 | cut -c1-400)
   e=$(date +%s)
   echo "=== $p thorough wall=$((e-s))s"
   echo "$out"
